@@ -66,7 +66,7 @@ def run(c):
                 for k, v in kinds.items():
                     c.coverage["generated_rules:" + k.split("/same")[0]] = c.coverage.get("generated_rules:" + k.split("/same")[0], 0) + v
                 fam = set(k.split("/")[0] + "/" + k.split("/")[1] for k in kinds if "/" in k)
-                if o["reports"] < 9 or "do/conditional-report-or-suggest" not in kinds or not {"contains/binder", "contains/free-variable"} <= fam or not any(k.startswith("variadic/") for k in fam):
+                if o["reports"] < 11 or "do/conditional-report-or-suggest" not in kinds or not {"contains/binder", "contains/free-variable"} <= fam or not any(k.startswith("variadic/") for k in fam):
                     c.obligation("harness:history-rules", False, "rule groups dropped: %s; kinds %s" % (o.get("err"), sorted(kinds)))
                 continue
             if o.get("err"):
